@@ -9,10 +9,10 @@ use fixed_buffer::*;
 use std::io::{Read, Write};
 
 pub fn len_of(h: &[u8]) -> usize {
-    if h.is_empty() {
+    if h.is_empty() || h[0] < 0x30 {
         0
     } else {
-        (h[0] % 16) as usize
+        ((h[0] - 0x30) % 80) as usize
     }
 }
 
@@ -117,6 +117,7 @@ pub fn dispatch(n: usize, srw: &Srw, dests: &[usize], w: &mut impl std::io::Writ
         6 => pl_line::<6>(srw, dests, w),
         8 => pl_line::<8>(srw, dests, w),
         16 => pl_line::<16>(srw, dests, w),
+        33 => pl_line::<33>(srw, dests, w),
         64 => pl_line::<64>(srw, dests, w),
         _ => return false,
     }
@@ -160,7 +161,7 @@ pub fn streams(rng: &mut Rng, count: usize, maxreq: usize) -> Vec<Vec<u8>> {
 pub fn run(thorough: bool, seed: u64, w: &mut impl std::io::Write) {
     let mut rng = Rng(seed ^ 0x91);
     let mut n = 0usize;
-    let scheds: Vec<Vec<usize>> = vec![vec![], vec![1], vec![2], vec![0, 1], vec![1, 0, 2], vec![3, 0, 0, 1]];
+    let scheds: Vec<Vec<usize>> = vec![vec![], vec![1], vec![2], vec![0, 1], vec![1, 0, 2], vec![3, 0, 0, 1], vec![9], vec![16, 0, 7]];
     // exhaustive chunkings of short connections
     let short = streams(&mut rng, if thorough { 60 } else { 16 }, 2);
     for s in short.iter().filter(|s| s.len() <= if thorough { 10 } else { 8 }) {
@@ -187,7 +188,40 @@ pub fn run(thorough: bool, seed: u64, w: &mut impl std::io::Write) {
             n += 1;
         }
     }
-    eprintln!("STAT pl scenarios={}", n);
+    // long headers / payloads around the buffer size, chunk sizes around 8 and SIZE
+    let lcases = if thorough { 20000 } else { 2500 };
+    for _ in 0..lcases {
+        let size = [16usize, 33, 64][rng.below(3)];
+        let k = 1 + rng.below(3);
+        let mut s: Vec<u8> = vec![];
+        for _ in 0..k {
+            let n = [0usize, 1, 9, size - 1, size, size + 7, 15, 31][rng.below(8)].min(79);
+            s.push(0x30 + n as u8);
+            let hl = [0usize, 1, size / 2, size - 3, size - 2][rng.below(5)];
+            for i in 0..hl {
+                s.push([b'h', 0x80, 0x0b, b'\r'][i % 4]);
+            }
+            if rng.chance(1, 3) {
+                s.push(b'\r');
+            }
+            s.push(b'\n');
+            for i in 0..n {
+                s.push([b'a', b'\n', 0xff, b'\r', 0x01][(i + rng.below(2)) % 5]);
+            }
+        }
+        if rng.chance(1, 4) {
+            let cut = rng.below(s.len() + 1);
+            s.truncate(cut);
+        }
+        let na = rng.below(10);
+        let racts: Vec<RAct> = (0..na).map(|_| RAct::Data([1usize, 7, 8, 9, size - 1, size, size + 5, 1000][rng.below(8)], rng.chance(1, 10))).collect();
+        let srw = mk(1, &s, racts);
+        let ds = &scheds[rng.below(scheds.len())];
+        if dispatch(size, &srw, ds, w) {
+            n += 1;
+        }
+    }
+    eprintln!("STAT pl scenarios={} long_scenarios={}", n, lcases);
 }
 
 pub fn replay_line(l: &str, w: &mut impl std::io::Write) -> bool {
